@@ -233,6 +233,12 @@ func NewPropFindResponse(path string, propfind *PropFind, props map[xml.Name]Pro
 			seen[xmlName] = true
 
 			emptyVal := NewRawXMLElement(xmlName, nil, nil)
+			if xmlName.Space == "" {
+				// without this, encoding/xml lets the element inherit the
+				// DAV: default namespace of the enclosing prop element
+				noNamespace := xml.Attr{Name: xml.Name{Local: "xmlns"}}
+				emptyVal = NewRawXMLElement(xmlName, []xml.Attr{noNamespace}, nil)
+			}
 
 			var code int
 			var val interface{} = emptyVal
